@@ -32,6 +32,16 @@ T52 = 4503599627370496
 
 
 # ---------------------------------------------------------------- source text
+def pregen():
+    """regenerate coq/theories/Gen/AllocArms.v from the current Rust source (translators/alloc_arms.py): the allocation obligations
+    of Props/C12.v are stated over that table"""
+    import os, sys
+    from vlib import core as _core
+    sys.path.insert(0, os.path.join(_core.ROOT, "translators"))
+    import armlib
+    return armlib.pregen(PROP, [("alloc_arms", "theories/Proofs/AllocArmsP.vo")])
+
+
 def int_expr(k, v):
     """expression of kind k with value v (arithmetic on typed chunks above 2^53: literals go through f64)"""
     if abs(v) < 2 ** 53:
